@@ -11,7 +11,7 @@ RULE = ("irs ty b: digest over all 256 values e of the elements/size()/range::si
         "types; er/ers/era: every (start, end) pair of enums with 1..9 enumerators over six underlying types; cyc: every boundary of "
         "length 1..6 (whole container and embedded), every start offset, every k in [-20,20] (advance vs |k| single steps, + += - -= k+it, "
         "distance), plus large |k|; cycw: random walks of ++ -- it++ it-- += -= [] on vector and list; sp: spiral ranges of distance "
-        "0..6 (thorough 0..12, 49, 50) from origins near 0, random and near the type limits; nb: neighbour arrays; itr/adr: every "
+        "0..9 (thorough 0..12), 49, 50 from origins near 0, random and near the type limits; nb: neighbour arrays; itr/adr: every "
         "sub-range of containers up to length 6 / whole containers; mirc: the static count lists. "
         "An op is non-trivial if its result is not bad-op and the range is not empty; distinct = distinct op lines.")
 ASSUMPTIONS = [
@@ -95,17 +95,19 @@ def batches(rng, tier):
     ops = [f"irc {ty} {n}" for ty in T8 for n in range(lo_hi(ty)[0], lo_hi(ty)[1] + 1)]
     yield Batch("int-range-count-8bit", ops, exhaustive=True, note="make_int_range_count(n) for every n of the 8-bit types")
 
-    # 1b. thorough: 16-bit types, every end value for lattice and random begin values
-    if thorough:
-        r = rng.fork("irs16")
-        ops = []
-        for ty in ("i16", "u16"):
-            lo, hi = lo_hi(ty)
+    # 1b. 16-bit types: every end value for a set of begin values (quick: 6 per type; thorough: lattice + random, 48 per type)
+    r = rng.fork("irs16")
+    ops = []
+    for ty in ("i16", "u16"):
+        lo, hi = lo_hi(ty)
+        if thorough:
             bs = set(lattice(ty))
             while len(bs) < 48:
                 bs.add(r.range(lo, hi))
-            ops += [f"irs {ty} {b}" for b in sorted(bs)]
-        yield Batch("int-range-16bit-all-ends", ops, note="16-bit types: all 65536 end values for 48 begin values each (lattice + random)")
+        else:
+            bs = {lo, hi, hi - 150, 0 if lo == 0 else -1, r.range(lo, hi), r.range(lo, hi)}
+        ops += [f"irs {ty} {b}" for b in sorted(bs)]
+    yield Batch("int-range-16bit-all-ends", ops, note="16-bit types: all 65536 end values for a set of begin values (boundaries + random)")
 
     # 2. wider types: boundary lattice pairs + near-boundary random pairs + counts
     r = rng.fork("wide")
@@ -164,7 +166,7 @@ def batches(rng, tier):
                     ops.append(f"cyc {L} {f} {s} {start} {k}")
     yield Batch("cyclic-advance-all", ops, exhaustive=True,
                 note="boundary lengths 1..6 (whole container and embedded sub-range), every start, every k in [-20,20]: advance vs |k| single steps")
-    if thorough:
+    if True:
         ops = []
         for ln in range(1, 13):
             for f in (0, 2):
@@ -207,7 +209,7 @@ def batches(rng, tier):
     # 7. spiral
     r = rng.fork("spiral")
     ops = []
-    dists = list(range(0, 13 if thorough else 7))
+    dists = list(range(0, 13 if thorough else 10))
     for ty, big in (("i32", 2 ** 31 - 1 - 20000), ("i64", 2 ** 63 - 1 - 20000)):
         origins = [(0, 0), (5, 5), (-3, 7), (1, -1), (big, big), (-big, -big), (big, -big), (0, -big), (-big, 0)]
         for _ in range(40 if thorough else 4):
